@@ -188,7 +188,8 @@ def enc_text(t) -> str:
 # ------------------------------------------------------------------ value generators
 NON_ASCII = ["é", "ß", "ñandú", "日本", "😀", "straße"]
 RESERVED = ["a&b", "a+b", "a b", "50%", "%41", "x%2Bx", "a#b", "a?b=c", "a=b", "a;b", "<x>", "\"q\"",
-            "o'k", "a/b", "$Time$", "$$", "~t", "a\\b", "{x}", "a|b"]
+            "o'k", "a/b", "$Time$", "$$", "~t", "a\\b", "{x}", "a|b", "&nbsp;", "&#0;", "&lt;x&gt;", "}{", "{0}",
+            "0x1F", "QUJD+/==", "{\"a\":1}", "true", "null", "%00", "x" * 1024]
 PLAIN = ["abc", "x", "mp4a", "ec-3", "im1t|etd1", "http-ntp", "0", "1", "42", "stream.2", "A_b-9"]
 
 
@@ -257,8 +258,9 @@ def gen_time(rng) -> datetime.time:
     return datetime.time(rng.randrange(24), rng.randrange(60), rng.randrange(60))
 
 
-INTS = [0, 1, -1, 2, 4, 9, 10, 16, 30, 60, 99, 100, 1800, 2 ** 31 - 1, 2 ** 31, 2 ** 32, 2 ** 53, 2 ** 53 + 1,
-        -2 ** 63, 10 ** 30]
+INTS = [0, 1, -1, 2, 4, 9, 10, 16, 30, 60, 99, 100, 1800, 2 ** 31 - 1, 2 ** 31, 2 ** 31 + 1, 2 ** 32 - 1, 2 ** 32,
+        2 ** 32 + 1, 2 ** 33 - 1, 2 ** 33 + 1, 2 ** 53 - 1, 2 ** 53, 2 ** 53 + 1, 2 ** 63 - 1, -2 ** 63, 10 ** 30,
+        4095, 4096, 4097, 9999, 10000, 10001, 65535, 65536, 99999, 100000, 100001, 4999999, 5000000, 5000001]
 
 
 def gen_int(rng, lo=None) -> int:
@@ -378,7 +380,7 @@ def cgi_text_of(kspec: str, v) -> str:
 COMMON_TEXTS = ["", "none", "None", "NONE", "nOnE", " ", "a&b", "a+b", "%", "%2", "%zz", "%41", "x%2Bx", "#", "?",
                 "é", "日本", "o'k", "\"q\"", "<x>", ",", ",,", "a,,b", "-", "true", "True", "ON", "on", "off",
                 "0", "1", "-1", "+5", " 7 ", "1_0", "_1", "1__0", "1_", "\t5\n", "5\x1f", "\x0c6", "007", "- 5",
-                "5 5", "0x10", "1e3x", "--1", "+-1", "12a"]
+                "5 5", "0x10", "1e3x", "--1", "+-1", "12a", "9e4", "1000.0", "true", "null", "&nbsp;", "{x}"]
 FLOAT_TEXTS = ["1.0", "2.0", "3.0", "4.0", "0.5", "10.9", " 2.0 ", "7", "123456.7", "abc", "1.2.3", "1,5", "2.x",
                "x.1", "", "none", "None", "..", "a.b"]
 DRM_TEXTS = ["all", "ALL", "All", "all-pro", "all-pro-cenc", "all-moov", "all-foo", "allx", "all-", "none",
@@ -417,3 +419,65 @@ def texts_for(kbase: str, rng, n: int) -> list[str]:
     if n >= len(pool):
         return list(pool)
     return rng.sample(pool, n)
+
+
+# ------------------------------------------------------------------ the deterministic part of the value generators
+OFFSETS = ["+00:00", "-03:30", "-00:30", "+12:45", "+14:00", "-12:00", "+23:59", "+05:30"]
+MICROS = [0, 1, 250000, 499999, 500000, 750000, 999999]
+YEARS = [1, 100, 1479, 1900, 1970, 2000, 2024, 2036, 2038, 2040, 2100, 9999]
+
+
+def fixed_datetimes():
+    from dashlive.utils.timezone import UTC, FixedOffsetTimeZone
+    out = []
+    for k, y in enumerate(YEARS):
+        off = OFFSETS[k % len(OFFSETS)]
+        tz = UTC() if k % 3 == 0 else FixedOffsetTimeZone(off)
+        mo, d = [(1, 1), (12, 31), (2, 28), (3, 1)][k % 4]
+        out.append(datetime.datetime(y, mo, d, [0, 23, 12][k % 3], [0, 59, 30][k % 3], [0, 59, 1][k % 3],
+                                     MICROS[k % len(MICROS)], tzinfo=tz))
+    for off in OFFSETS:
+        out.append(datetime.datetime(2024, 2, 29, 23, 59, 59, 0, tzinfo=FixedOffsetTimeZone(off)))
+    for us in MICROS:
+        out.append(datetime.datetime(2024, 5, 6, 7, 8, 9, us, tzinfo=UTC()))
+    return out
+
+
+def fixed_values(kspec: str) -> list:
+    """boundary and spelling classes every run covers, whatever the seed (harness/CHECKLIST.md 2, 3, 5, 7)"""
+    from dashlive.drm.location import DrmLocation
+    kbase = kspec.split(":")[0]
+    strings = [x for x in PLAIN + RESERVED + NON_ASCII if not is_none_ci(x)]
+    if kbase == "bool":
+        return [True, False]
+    if kbase == "intOrNone":
+        return [None] + INTS + [-x for x in INTS[1:12]]
+    if kbase == "intOrDefault":
+        return INTS + [-x for x in INTS[1:12]]
+    if kbase == "posIntOrDefault":
+        return [x for x in INTS if x >= 1]
+    if kbase == "floatOrNone":
+        return [None] + [t / 10.0 for t in TENTHS]
+    if kbase == "strOrNone":
+        return [None] + strings
+    if kbase == "strRaw":
+        return strings + ["", "none", "None", "0"]
+    if kbase == "listJoin":
+        items = [x.replace(",", ";") for x in strings]
+        return [[], [items[0]], items[1:3], items[3:6]] + [[x] for x in items[6:]]
+    if kbase == "quotedUrl":
+        return [None] + URLS
+    if kbase == "drmSelection":
+        allloc = set(DrmLocation.all())
+        return [[], [("playready", allloc)], [("marlin", allloc), ("clearkey", allloc), ("playready", allloc)],
+                [("clearkey", {DrmLocation.MOOV}), ("marlin", {DrmLocation.MOOV}), ("playready", {DrmLocation.MOOV})],
+                [("playready", {DrmLocation.PRO, DrmLocation.CENC}), ("clearkey", allloc)]]
+    if kbase == "astDateTime":
+        return ["now", "today", "month", "year", "epoch", None] + fixed_datetimes()
+    if kbase == "dtOrNone":
+        return [None] + fixed_datetimes()
+    if kbase == "errorList":
+        dts = fixed_datetimes()
+        return [[], [(404, 0)], [(503, 1), (410, 2 ** 31)], [(404, datetime.time(0, 0, 0)), (503, datetime.time(23, 59, 59))],
+                [(500, dts[3]), (504, None), (404, -1)], [(2 ** 53 + 1, 2 ** 63 - 1), (-1, 10000), (0, 4096)]]
+    raise ValueError(kspec)
